@@ -173,6 +173,46 @@ func (in *Interp) recordHashApp(name string, t *Term) {
 			in.addPC(ax, true)
 		}
 	}
+	if ul, _ := in.extra["unhashed"].([]*Term); len(ul) > 0 && t.w == 256 {
+		ax := in.st.True
+		for _, u := range ul {
+			ax = in.st.BAnd(ax, in.unhashedAxiom(u, t))
+		}
+		if !ax.IsTrue() {
+			in.addPC(ax, true)
+		}
+	}
+}
+
+// unhashedAxiom: the free value u is independent of the hash output h - not equal to it, and (node hashes
+// are H or H+len, len <= 251) not within 251 above it either. Part of the ideal-hash model: a value chosen
+// without knowledge of a hash output does not hit it, and a hash output does not hit one of its own inputs.
+func (in *Interp) unhashedAxiom(u, h *Term) *Term {
+	st := in.st
+	ih, ns := st.idealHash, st.nodeSep
+	st.idealHash, st.nodeSep = false, false
+	defer func() { st.idealHash, st.nodeSep = ih, ns }()
+	d := in.feltSubMod(u, h)
+	return st.Cmp(OpULt, st.Const(256, 251), d)
+}
+
+// registerUnhashed implements vx.Unhashed(*felt.Felt).
+func (in *Interp) registerUnhashed(u *Term) {
+	if u.IsConst() {
+		return
+	}
+	ul, _ := in.extra["unhashed"].([]*Term)
+	in.extra["unhashed"] = append(ul, u)
+	l, _ := in.extra["hashapps"].([]hashAppRec)
+	ax := in.st.True
+	for _, h := range l {
+		if h.t.w == 256 {
+			ax = in.st.BAnd(ax, in.unhashedAxiom(u, h.t))
+		}
+	}
+	if !ax.IsTrue() {
+		in.addPC(ax, true)
+	}
 }
 
 // pairAxioms returns the ideal-hash axioms between application k and all earlier ones
